@@ -61,6 +61,18 @@ ENV = """
             }
         };
     }
+    /// stub for `String::push` where the text is ASCII: appends one byte.  (std's push reserves `ch.len_utf8()` bytes; with a symbolic
+    /// character that is a reallocation of symbolic size per pushed character, on which CBMC runs out of memory.)
+    pub fn vk_push_ascii(s: &mut String, ch: char) { assert!((ch as u32) < 128); unsafe { s.as_mut_vec().push(ch as u8); } }
+    /// the same for characters below U+0800: one byte, or the two bytes of the UTF-8 encoding
+    pub fn vk_push_small(s: &mut String, ch: char) {
+        let c = ch as u32;
+        assert!(c < 0x800);
+        unsafe {
+            let v = s.as_mut_vec();
+            if c < 128 { v.push(c as u8); } else { v.push(0xC0 | (c >> 6) as u8); v.push(0x80 | (c & 0x3F) as u8); }
+        }
+    }
     pub fn vk_string(bytes: &[u8]) -> VkArg { VkArg::text(unsafe { String::from_utf8_unchecked(bytes.to_vec()) }) }
     /// any INTEGER argument
     pub fn vk_any_integer() -> (i32, VkArg) { let a: i16 = kani::any(); (a as i32, VkArg::num(Variant::VInteger(a as i32))) }
@@ -105,7 +117,7 @@ def open_file(b, name):
 
 ALPHA3 = "[0 => b'a', 1 => b'b' ; b'c']"          # three letters
 FN = "rusty_basic::interpreter::built_ins::%s::run (body, sliced)"
-STUB_NOTE = ("the VM Context of a built-in call is replaced by an argument array (VkInterp): interpreter.context()[k] reads argument k, "
+STUB_NOTE = ("String::push -> a stub that appends the one or two UTF-8 bytes of a character below U+0800 (std's push reserves ch.len_utf8() bytes: a reallocation of symbolic size per character, on which CBMC runs out of memory); the VM Context of a built-in call is replaced by an argument array (VkInterp): interpreter.context()[k] reads argument k, "
              "set_built_in_function_result stores the result; the body of run() is the repository's text, unchanged")
 
 RESULT_STR = """
@@ -135,7 +147,7 @@ def left_right(b, prefix, n, counts, tier, core=True, only=("left", "right")):
         std::mem::forget(vm);
         """ % {"n": n, "c": c, "alpha": ALPHA3, "result": RESULT_STR, "at": want_at, "want": want,
                "what": "prefix" if which == "left" else "suffix"},
-                  unwind=n + 3, tier=tier, core=core, cost=20 + 10 * n,
+                  unwind=n + 3, tier=tier, core=core, cost=20 + 10 * n, stubs=[("std::string::String::push", "vk_push_ascii")],
                   bounds="every string of exactly %d letters over {a, b, c}; count %d" % (n, c),
                   functions=[FN % which, "rusty_basic::interpreter::variant_casts::VariantCasts::to_non_negative_int"])
 
@@ -250,7 +262,7 @@ def space_string(b, prefix, tier):
         for ch in r.chars() { assert!(ch as u32 == code as u32); n += 1; }
         assert!(n == %(c)d);
         std::mem::forget(vm);
-        """ % {"c": c, "arms": arms, "last": codes[-1]}, unwind=c + 4, tier="thorough", core=False, cost=60,   # CBMC: resource failure at 8 GB (String::push of a merged char)
+        """ % {"c": c, "arms": arms, "last": codes[-1]}, unwind=c + 4, tier=tier, cost=60, stubs=[("std::string::String::push", "vk_push_small")],
               bounds="count %d; character codes %s" % (c, ", ".join(map(str, codes))), functions=[FN % "string_fn",
               "rusty_basic::interpreter::built_ins::string_fn::run_with_variant", "rusty_basic::interpreter::built_ins::string_fn::run_with_ascii_code_argument"])
     b.add(rel, prefix + "_string_code_invalid", """
@@ -398,7 +410,7 @@ def lint_vs_run(b, prefix, name, tier, core=True):
                 std::mem::forget(vm);
             }
         }
-        """, unwind=6, tier=tier, core=core, cost=120,
+        """, unwind=6, tier=tier, core=core, cost=120, stubs=[("std::string::String::push", "vk_push_small")],
           bounds="every argument list of 0..3 arguments, each of any of the five built-in types (values: 1, the empty text)",
           functions=["rusty_linter::built_ins::%s::lint (body, sliced)" % name, "rusty_linter::built_ins::arg_validation::ArgValidation (trait text, sliced: default methods)",
                      "rusty_linter::core::CanCastTo for TypeQualifier", FN % name])
